@@ -133,6 +133,22 @@ func checkComponents(run *core.Run, v fam.View, ver string, exp fam.TypeExpect) 
 					}
 				}
 			}
+			// what a property says beyond its type (description, deprecated, enum) is its own field's, never a sibling's
+			for n, own := range es.Docs {
+				p := spec.M(props[n])
+				if p == nil {
+					continue
+				}
+				if d := strings.TrimSpace(spec.Str(p["description"])); d != "" && d != own {
+					rep("property-description-is-the-field's-own", fmt.Sprintf("%s.%s is described as %q, the field's own comment is %q", name, n, d, own))
+				}
+				if dep, _ := p["deprecated"].(bool); dep && n != "t2" {
+					rep("property-description-is-the-field's-own", fmt.Sprintf("%s.%s is marked deprecated, only t2 is", name, n))
+				}
+				if en := spec.L(p["enum"]); len(en) > 0 && n != "s2" {
+					rep("property-description-is-the-field's-own", fmt.Sprintf("%s.%s lists enum values %s, only s2 declares any", name, n, spec.Canon(p["enum"])))
+				}
+			}
 			var gotReq []string
 			for _, r := range spec.L(obj["required"]) {
 				gotReq = append(gotReq, spec.Str(r))
